@@ -35,10 +35,16 @@ def main():
     seed_dir, sid = sys.argv[1], sys.argv[2]
     meta = json.load(open(os.path.join(seed_dir, "meta.json")))
     prop = meta["property"]
-    checks = [prop] + sys.argv[3:]
+    checks = [prop] + [a for a in sys.argv[3:] if not a.startswith("--")]
     patch = os.path.abspath(os.path.join(seed_dir, "patch.diff"))
     demo = os.path.join(seed_dir, "demo_test.go")
     result = {"confirmed": False}
+    # already confirmed earlier: only re-run the detection step
+    prev_path = os.path.join(VERIF, "seeded", sid, "meta.json")
+    if os.path.exists(prev_path) and "--verify" not in sys.argv:
+        prev = json.load(open(prev_path))
+        if prev.get("verification", {}).get("confirmed"):
+            return detect_and_store(seed_dir, sid, meta, prev["verification"], checks, patch, demo)
     wt = tempfile.mkdtemp(prefix="seedverify-")
     os.rmdir(wt)
     rc, out = sh("git worktree add -q --detach %s HEAD" % wt, REPO)
@@ -82,6 +88,10 @@ def main():
     finally:
         sh("git worktree remove --force %s" % wt, REPO)
         shutil.rmtree(wt, ignore_errors=True)
+    return detect_and_store(seed_dir, sid, meta, result, checks, patch, demo)
+
+
+def detect_and_store(seed_dir, sid, meta, result, checks, patch, demo):
     detection = {}
     if result["confirmed"]:
         rc, out = sh("git status --porcelain", REPO)
